@@ -3,9 +3,9 @@ package gen
 import (
 	"encoding/binary"
 	"encoding/hex"
-	"hash/fnv"
 	"encoding/json"
 	"fmt"
+	"hash/fnv"
 	"math/rand"
 	"sort"
 	"strconv"
@@ -36,10 +36,10 @@ type Span struct {
 	Name     string `json:"name"`
 	StartNs  int64  `json:"start"`
 	DurNs    int64  `json:"dur"`
-	Service  string `json:"service"`  // "" = none given
-	Attrs    []Attr `json:"attrs"`    // span level
-	ResAttrs []Attr `json:"res_attrs"` // resource level (OTLP) — excluding service.name
-	Group    int    `json:"group"`    // resource/scope group index (OTLP)
+	Service  string `json:"service"`          // "" = none given
+	Attrs    []Attr `json:"attrs"`            // span level
+	ResAttrs []Attr `json:"res_attrs"`        // resource level (OTLP) — excluding service.name
+	Group    int    `json:"group"`            // resource/scope group index (OTLP)
 	Remote   string `json:"remote,omitempty"` // zipkin remoteEndpoint.serviceName
 }
 
